@@ -217,7 +217,16 @@ def main() -> int:
             else:
                 refuted.append(r)
     vacuous = [r for r in covers if r["status"] == "refuted"]
-    undecided = [r for r in proof_rows if r["status"] in ("unknown", "unsupported", "open")]
+    # an obligation carrying the label of a listed known finding is expected not to be provable: when the solver can
+    # neither prove nor refute it (thorough tier), it is reported with the finding, not as undecided
+    undecided = []
+    for r in proof_rows:
+        if r["status"] in ("unknown", "unsupported", "open"):
+            k = next((k for k in known if r["status"] == "unknown" and k.get("match", {}).get("label") and known_match(k, r)), None)
+            if k is not None:
+                known_hits.append((k, r))
+            else:
+                undecided.append(r)
     discharged = sum(1 for r in proof_rows if r["status"] == "proved")
     bounded = run_bounded(pid, tier, seed)
     lines: list[str] = []
@@ -308,8 +317,12 @@ def main() -> int:
     samples = [{"obligation": r["name"], "status": r["status"], "backend": r["backend"], "ms": r["ms"],
                 "path": r["note"][:6]} for r in proof_rows[:: max(1, len(proof_rows) // 12)]][:14]
     level = meta["level"]
+    # obligations that belong to a listed known finding (expected to fail, reported as KNOWN-FINDING) are counted apart
+    known_rows = {id(r) for _k, r in known_hits}
+    counted = [r for r in proof_rows if id(r) not in known_rows]
     coverage: dict[str, Any] = {
-        "obligations": len(proof_rows), "discharged": discharged,
+        "obligations": len(counted), "discharged": discharged,
+        "known_finding_obligations_failed": sorted({r["name"] for _k, r in known_hits})[:60],
         "checker_cmd": f"python3-vt driver.py {pid} {tier}  (pyvc AST->SMT VC generator over {TREE}/pyjelly; z3 5.1.0 API, fallback /usr/bin/cvc5 1.0.3, /usr/bin/z3 4.8.12)",
         "trusted_base": sorted(assumptions),
         "samples": samples,
@@ -335,7 +348,7 @@ def main() -> int:
         json.dump(ev, f, indent=1)
     for ln in lines:
         print(ln)
-    print(f"{pid} {tier}: {discharged}/{len(proof_rows)} obligations discharged over {len(funcs)} functions/lemmas, "
+    print(f"{pid} {tier}: {discharged}/{len(counted)} obligations discharged over {len(funcs)} functions/lemmas, "
           f"{len(undecided)} undecided, {len(refuted)} refuted, bounded={'-' if bounded is None else bounded.get('evaluations')} "
           f"in {time.time() - t0:.1f}s -> exit {exit_code}")
     return exit_code
